@@ -23,6 +23,7 @@ sys.path.insert(0, "/repo")
 
 USER_NAMES = ["a", "b", "k", "x"]
 BUILTINS = ["event", "source", "target", "state", "model", "machine", "transition", "event_data"]
+INTERNAL_NAMES = ["key", "args", "kwargs", "cls", "spec", "specs", "registry", "trigger_data", "callback", "condition", "value"]
 
 
 def legal_signatures(max_params):
@@ -213,7 +214,8 @@ def run(pid, tier, seed, replay):
             named = [p["name"] for p in sig if p["kind"] in ("PK", "KO", "PO")]
             for npos in range(0, 4):
                 for _ in range(3 if quick else 5):
-                    pool = named + ["zz"] + rng.sample(BUILTINS, 2)
+                    # undeclared names, incl. ones that are parameter names inside the library itself
+                    pool = named + ["zz"] + rng.sample(BUILTINS, 2) + rng.sample(INTERNAL_NAMES, 1)
                     user_names = [n for n in pool if rng.random() < 0.4]
                     user = [{"name": n, "val": f"u:{n}"} for n in dict.fromkeys(user_names)]
                     cases.append({"sig": sig, "pos": [f"p{j + 1}" for j in range(npos)], "user": user,
@@ -246,6 +248,7 @@ def run(pid, tier, seed, replay):
                tuple(u["name"] for u in c["user"]))
         distinct.add(key)
         feats = {"how": how, "group": group, "forwarded_from_parent_event": forwarded,
+                 "user_kwarg_named_key": any(u["name"] == "key" for u in c["user"]),
                  "ko_after_surplus_positional": any(p["kind"] == "KO" for p in c["sig"]) and len(c["pos"]) >
                  sum(1 for p in c["sig"] if p["kind"] in ("PO", "PK")) and not any(p["kind"] == "VP" for p in c["sig"])}
         replay_info = {"signature": c["sig"], "pos": c["pos"], "user_kwargs": c["user"], "how": how, "group": group,
